@@ -24,6 +24,7 @@ ASSUMPTIONS = [
     'two-layer smoothing window is given in percent of the layer count (0-100)',
     'column sums rtol 1e-12; profile-range clauses rtol 1e-9 (log-space moving average)',
 ]
+RULE = RULE + ' ' + 'Also: fill ratios down to 1e-17, bracketed formulas ((), [], {} with counts, nested), the pressure grid as whole-number pascals in an integer array.'
 REQUIRED = {'single-fill-with-ratio': 0.05, 'exact-unity': 0.2, 'deactivated-molecule': 0.1, 'class:valid': 0.3, 'class:invalid': 0.1, 'class:boundary': 0.03, 'type:twolayer': 0.1,
             'type:power': 0.1, 'mode:ktables': 0.07, 'fill>=3': 0.1, 'tiny-fill-ratio': 0.05, 'pressure-grid:integer-array': 0.05}
 # coverage-guided extra (thorough tier): pure-Python taurex modules on this property's path, instrumented by atheris
